@@ -244,7 +244,7 @@ M("C16", "c16_mark_as_failed_step", ["BlockchainSyncState::mark_as_failed"], "qu
 M("C16", "c16_picture_no_duplicates", ["BlockchainSyncState::build_peer_block_picture"], "one peer, fetch queue of 2..=3 entries (thorough 4) in any order without duplicates, one announced (id, hash) possibly equal to any queued entry; the final map clean-ups are cut", covers=1)
 M("C16", "c16_mark_as_fetched_step", ["BlockchainSyncState::mark_as_fetched"], "two peers, each queue holding the fetched hash (any status, either position) and one other entry; the clean-up call is cut", covers=1)
 M("C16", "c16_select_orders_unsorted_queue", ["BlockchainSyncState::get_blocks_to_fetch_per_peer"], "queue of 2..=3 entries (both tiers) in arbitrary order with pairwise distinct ids, statuses / retry counts symbolic, batch size 1..=3; sort_by executed as a bubble network over the real comparison closure (equal ids, i.e. the hash tie-break, outside this obligation)", covers=2)
-M("C16", "c16_remove_entry_every_peer", ["BlockchainSyncState::remove_entry"], "two peers, each queue holding the removed hash (any status, either position) and one other entry; explored up to the final clean-up of empty queues (map retain); VecDeque::retain executed over the real closure", covers=1)
+M("C16", "c16_remove_entry_every_peer", ["BlockchainSyncState::remove_entry"], "two peers, each queue holding the removed hash (any status, either position) and one other entry; the final clean-up of empty queues included; VecDeque::retain and HashMap::retain executed over the real closures", covers=1)
 M("C16", "c16_select_step", ["saito_core::core::consensus::blockchain_sync_state::BlockchainSyncState::get_blocks_to_fetch_per_peer"],
   "queues of 1..=3 entries (thorough 4): every status pattern (4^n), ids, retry counters (full u32) and batch size symbolic; ~14 clauses per path", covers=3)
 
